@@ -298,9 +298,27 @@ func (ad *Advertisement) VerifySignature() (peer.ID, error) {
 		seenTopLevelProv := false
 		for _, p := range ad.ExtendedProvider.Providers {
 
-			_, err = record.ConsumeTypedEnvelope(p.Signature, rec)
+			epEnvelope, err := record.ConsumeTypedEnvelope(p.Signature, rec)
 			if err != nil {
 				return "", err
+			}
+
+			// The signature must be made by the key of the identity that the
+			// extended provider entry names, or by the advertisement's signer
+			// for the entry of the advertisement's own provider.
+			epSignerID, err := peer.IDFromPublicKey(epEnvelope.PublicKey)
+			if err != nil {
+				return "", fmt.Errorf("cannot convert public key to peer ID: %w", err)
+			}
+			if p.ID == ad.Provider {
+				if epSignerID != signerID {
+					return "", errors.New("extended provider signature for the advertisement provider not made by the advertisement signer")
+				}
+			} else if epSignerID.String() != p.ID {
+				epID, err := peer.Decode(p.ID)
+				if err != nil || epID != epSignerID {
+					return "", errors.New("extended provider signature not made by the extended provider")
+				}
 			}
 
 			// Calculate our signature payload
